@@ -25,6 +25,14 @@
     run with b' = c * r0 (c = 1e-12, 1e-15, 1e-30; float32: 1e-12, 1e-18), with x0 = e1 and b' = A x0 + c r0
     (c = 2^-36, 2^-40, exactly representable) and with blocks that put a tiny column next to an O(1) column; every
     column is judged relative to its own ||r0'|| against TLC's exact rho_m / ||r0||.
+(7) Warm starts wider than the right-hand side: catalog cases (complex operator, real b, guess (1+i) e1; real operator,
+    b = 2 gen, guess e1, replayed halved as an integer b with the guess e1/2; wide-integer cases whose guess needs 26 bits
+    while b is a float32) are replayed with every dtype combination in which x0 is wider than b (b float64 / float32 /
+    int64) through gmres() and inv(A, GMRES(x0=...)) (column and 1-D guess) against the same exact optimum; the
+    caller's arrays must not be overwritten.
+(8) Declared operators: the symmetric systems of the scaled catalog and a numeric family of symmetric / Hermitian,
+    definite / indefinite matrices with wide spectra (n = 20 .. 60, m in {n/2, n, n+3}) are run undeclared and wrapped in
+    cola.SelfAdjoint / cola.PSD: same bound, same iterate.
 (5) Larger ill-conditioned systems (n <= 60, prescribed singular values, cond 10^4 .. 10^7 in float64, 10^2 .. 10^3 in
     float32) run to m >= n: residual <= ILLCOND_C[dtype] * eps * cond * ||r0|| (projection predicate, see the assumptions)."""
 import json
@@ -1239,6 +1247,19 @@ ASSUMPTIONS = [
     "variant): 18 / 55 / 44 times the largest excess measured on the unchanged tree (13.8 / 0.58 / 0.18), which is the "
     "same at c = 1 (13.3); a start vector that is not normalised exceeds it by a factor 1e12 (float64), 1e4 (float32), "
     "75 (shifted variant); float32 scales stop at 1e-18 because (1e-20)^2 underflows in float32",
+    "warm starts wider than the right-hand side: the exact optimum does not depend on the dtypes in which A, b, x0 are passed; "
+    "catalog cases flagged mixed (TLC's x_m, rho2_m; the halved variant uses homogeneity with the exact factor 1/2) are compared "
+    "with the catalog tolerances above for b in float64 / float32 / int64; the warm32 cases (TLC wide integers; x0[0] = 2^25+1, "
+    "every entry of b a float32, ||r0|| = O(1)) are judged relative to ||r0|| with unit eps(b dtype)*(cond+1) + "
+    "eps64*(||A|| ||x0|| + ||b||)/||r0|| (beta is carried in the precision of b) and C = 4 (unchanged tree 0.17; a guess "
+    "rounded to float32 gives 218 .. 4.9e5 on truncated iterates); Python lists are not accepted by gmres() (x0[..., None]) "
+    "and are not exercised",
+    "declared operators (cola.SelfAdjoint / cola.PSD wrappers of a column-counting operator): the annotation is a promise "
+    "about the same matrix, so the declared run must meet the bound of the undeclared one and give the same residual up to "
+    "C*eps*cond_2(A)*||r0|| with C = 16 (numeric family, harness-side oracle: 0 for m >= n, dense least squares over an "
+    "orthonormal Krylov basis for m = n/2; measured on the unchanged tree over 96 systems: <= 1.09, difference exactly 0; a "
+    "short-recurrence Arnoldi for annotated operators: >= 1.1e10) and the scaled-catalog bound (C = 256 / 16) on the "
+    "symmetric templates diag2/3/4, sym3, symi3 against TLC's exact optimum",
     "ill-conditioned numeric family (n <= 60, prescribed singular values, cond 1e4 .. 1e7 in float64, 1e2 .. 1e3 in float32, "
     "m >= n so that the exact minimal residual is 0): harness-side projection predicate, not TLC: "
     "||b - A x|| <= C*eps(dtype)*cond_2(A)*||r0|| with C = 16 (float64) / 5 (float32); ASSUMPTION: a GMRES whose small "
